@@ -246,32 +246,41 @@ impl Tableau {
     fn find_t(&self, h: usize, variables_to_prefer: &[usize]) -> Option<(usize, f64)> {
         //use the Bland's rule for anti-cycling
         //gets the index of the row with the minimum ratio
-        let mut valid = self
+        let valid: Vec<(usize, f64)> = self
             .a
             .iter()
             .enumerate()
             .filter(|(_, a)| float_gt(a[h], 0.0))
-            .map(|(i, a)| (i, self.b[i] / a[h]));
+            .map(|(i, a)| (i, self.b[i] / a[h]))
+            .collect();
+        // ties are judged against the smallest ratio of all rows: judged against the row selected so far, a chain of
+        // near-ties (each within the tolerance of the previous one) drifts away from the minimum by one tolerance per
+        // row, and the pivot then leaves the feasible region by that much
+        let lowest = valid
+            .iter()
+            .map(|(_, ratio)| *ratio)
+            .fold(f64::INFINITY, f64::min);
         let basis = &self.in_basis;
-        match valid.next() {
-            Some(first) => {
-                let mut min = first;
-                for (i, ratio) in valid {
-                    if float_eq(ratio, min.1) {
-                        //if we found a tie, we use the Bland's rule for anti-cycling, but prefer to prioritize some variables
-                        let to_prefer = variables_to_prefer.contains(&basis[i])
-                            && !variables_to_prefer.contains(&basis[min.0]);
-                        if basis[i] < basis[min.0] || to_prefer {
-                            min = (i, ratio);
-                        }
-                    } else if float_lt(ratio, min.1) {
-                        min = (i, ratio);
+        let mut min: Option<(usize, f64)> = None;
+        for (i, ratio) in valid {
+            if !float_eq(ratio, lowest) {
+                continue;
+            }
+            min = match min {
+                None => Some((i, ratio)),
+                Some(current) => {
+                    //if we found a tie, we use the Bland's rule for anti-cycling, but prefer to prioritize some variables
+                    let to_prefer = variables_to_prefer.contains(&basis[i])
+                        && !variables_to_prefer.contains(&basis[current.0]);
+                    if basis[i] < basis[current.0] || to_prefer {
+                        Some((i, ratio))
+                    } else {
+                        Some(current)
                     }
                 }
-                Some(min)
-            }
-            None => None,
+            };
         }
+        min
     }
 
     fn variables_values(&self) -> Vec<f64> {
